@@ -129,4 +129,18 @@ var checks = map[string]*Check{
 		Assumptions: commonAssumptions,
 		RealStub:    coreRealStub,
 	},
+	"C13": {
+		Legs:        []Leg{{World: "C13", Weight: 1}},
+		Probes:      []string{"open_succeeded", "open_rejected", "non_shim_request"},
+		Rule:        "1..6 concurrent shim open requests whose bodies come from a URL grammar (absolute, scheme-relative, path-only, opaque scheme:rest, empty, userinfo, IPv6 literals, odd ports, foreign and link-local hosts, control bytes) or are random byte strings, plus 0..3 requests on look-alike paths outside the shim prefix; closed-world SimNet records every address any goroutine of the agent's host dials. Input-dominated: the simulator's contribution is that no dial can escape observation.",
+		Assumptions: commonAssumptions,
+		RealStub:    coreRealStub,
+	},
+	"C10": {
+		Legs:        []Leg{{World: "C10", Weight: 3}, {World: "C10/lru", Weight: 1}, {World: "C10", Race: true, Weight: 2}, {World: "C10/lru", Race: true, Weight: 1}},
+		Probes:      []string{"session_issued", "cookies_restored", "concurrent_sessions", "lru_eviction"},
+		Rule:        "1..4 (LRU leg: 3..6 with a window of 2) modelled browsers send 2..8 scripted requests over three hosts and four paths through real proxy and agent (-session-cookie-name) to a backend emitting generated Set-Cookie operations (set, overwrite, Path/Domain scoped, Max-Age, Secure/HttpOnly, delete, expired), with simulated gaps across expiry instants, then a burst of concurrent requests in all sessions plus two in one session. Reference: one independent net/http/cookiejar per modelled session on the same clock; values carry the session's tag so any foreign value is a leak.",
+		Assumptions: commonAssumptions,
+		RealStub:    coreRealStub,
+	},
 }
